@@ -10,6 +10,9 @@ class _FullStackLoad(FullCheck):
   FOCUS = ('load:', 'removal:')
   REQUIRED_CLASSES = ()
 
+  def bias(self, rng):
+    return {'membership': 0.5, 'scripted': 0.7}
+
 
 class C04(LBCheck):
   ID = 'C04'
